@@ -27,7 +27,11 @@ KEYS = {
                 ("untagged", True, "rename", False)],
     "field": [("rename", False, "skip", True), ("skip", True, "rename", False), ("flatten", True, "", False)],
 }
-VALUES = {"rename": ("renamedOne", "renamedTwo"), "rename_all": ("camelCase", "SCREAMING_SNAKE_CASE"),
+CTX = {"struct": [("export", True), ("optional_fields", True), ("as", False), ("type", False)],
+       "enum": [("export", True), ("as", False), ("type", False)],
+       "variant": [("skip", True), ("inline", True), ("as", False), ("type", False)],
+       "field": [("skip", True), ("inline", True), ("optional", True), ("as", False), ("type", False)]}
+VALUES = {"as": ("Inner", "Inner"), "type": ("string", "string"), "rename": ("renamedOne", "renamedTwo"), "rename_all": ("camelCase", "SCREAMING_SNAKE_CASE"),
           "rename_all_fields": ("camelCase", "SCREAMING_SNAKE_CASE"), "tag": ("kind", "type2"), "content": ("data", "payload")}
 JUNK_SRC = {"skip_serializing_if": 'skip_serializing_if = "Option::is_none"', "rename_split": 'rename(serialize = "ser_name")',
             "bound_paren": 'bound(serialize = "T: Clone")', "default_path": 'default = "some::path"', "other": "other",
@@ -48,6 +52,7 @@ def junk_cls(pos, name):
 
 def config():
     return {"keys": {p: [{"key": k, "flag": f, "k2": k2, "k2flag": f2} for k, f, k2, f2 in ks] for p, ks in KEYS.items()},
+            "ctx": {p: [{"key": k, "flag": f} for k, f in cs] for p, cs in CTX.items()},
             "junk": {p: [{"name": n, "cls": junk_cls(p, n)} for n in JUNK_SRC] for p in KEYS}}
 
 
@@ -73,11 +78,12 @@ def carrier(pos, lists, info):
     if pos == "variant":
         return "enum Carrier { %s FooBar { inner_field: i32 }, UnitVariant }" % a
     if pos == "field":
-        return "struct Carrier { %s foo_bar: Inner, other_field: i32 }" % a
+        opt = any(e["key"] == "optional" for l in lists for e in l["entries"])
+        return "struct Carrier { %s foo_bar: %s, other_field: i32 }" % (a, "Option<Inner>" if opt else "Inner")
     raise ToolError(pos)
 
 
-DEPS_RE = re.compile(r"(fn visit_dependencies \(v : & mut impl [^{]*\{)(.*?)(\} \}\s*)$")
+DEPS_RE = re.compile(r"(fn visit_dependencies \(v : & mut impl [^{]*\{)(.*?)(\} \})")
 WHERE_RE = re.compile(r"^(impl <[^{]*?> :: ts_rs :: TS for \w+ <[^{]*?>) where (.*?) (\{ type WithoutGenerics)")
 
 
@@ -86,7 +92,7 @@ def canon(tokens):
     m = DEPS_RE.search(tokens)
     if m:
         stmts = sorted(s.strip() for s in m.group(2).split(" ; ") if s.strip().strip(";").strip())
-        tokens = tokens[:m.start()] + m.group(1) + " ; ".join(stmts) + m.group(3)
+        tokens = tokens[:m.start()] + m.group(1) + " ; ".join(stmts) + tokens[m.start(3):]
     m = WHERE_RE.search(tokens)
     if m:
         preds = sorted(p.strip() for p in m.group(2).split(" , ") if p.strip())
@@ -107,12 +113,15 @@ def run(tier):
     for mode, feats in feature_sets:
         r = vlib.run_tlc("MC_AttrEquiv", "MC_AttrEquiv_%s.cfg" % mode, workers=8, env={"VERIF_CFG": cfgp}, timeout=1200, metatag="c10p")
         if r.violated:
+            # TLC stops at the first violated invariant: enumerate again without the model's own verdict
             v.note("model verdict: TLC reports %s violated on the transcription (%s)" % (r.violated, mode))
-        else:
-            vlib.tlc_must_succeed(r, "MC_AttrEquiv")
+            r = vlib.run_tlc("MC_AttrEquiv", "MC_AttrEquiv_%s_report.cfg" % mode, workers=8, env={"VERIF_CFG": cfgp}, timeout=1200, metatag="c10p")
+        vlib.tlc_must_succeed(r, "MC_AttrEquiv")
         stats["states"] += r.distinct
         stats["transitions"] += r.generated
         cases = r.payloads("CASE")
+        # the carrier of `content` brings its own #[ts(tag = ..)], which `as` / `type` do not go with
+        cases = [c for c in cases if not (c["pos"] == "enum" and c["ctx"] in ("as", "type") and carrier("enum", c["A"], c["info"]).startswith("#[ts(tag"))]
         items = []
         for c in cases:
             items.append(carrier(c["pos"], c["A"], c["info"]))
@@ -123,7 +132,7 @@ def run(tier):
             if "BADITEM" in (ka, kb):
                 raise ToolError("generated item is not Rust: %s / %s" % (items[2 * n], items[2 * n + 1]))
             same = ka == "OK" and kb == "OK" and canon(ta) == canon(tb)
-            recs.append({"pos": c["pos"], "class": c["class"], "info": c["info"], "A": c["A"], "B": c["B"],
+            recs.append({"pos": c["pos"], "class": c["class"], "info": c["info"], "ctx": c["ctx"], "A": c["A"], "B": c["B"],
                          "realA": ka, "realB": kb, "same": same, "features": "+".join(feats) or "none",
                          "srcA": items[2 * n], "srcB": items[2 * n + 1], "pred_same": c["pred_same"],
                          "msgA": ta if ka != "OK" else "", "msgB": tb if kb != "OK" else ""})
@@ -138,7 +147,7 @@ def run(tier):
     for k in sorted(set(a.payloads("BAD"))):
         r_ = recs[k - 1]
         junk = r_["info"] if r_["class"] == "inert" else None
-        desc = {"prop": PROP, "class": r_["class"], "position": r_["pos"], "key_or_junk": r_["info"], "features": r_["features"],
+        desc = {"prop": PROP, "class": r_["class"], "position": r_["pos"], "key_or_junk": r_["info"], "context": r_["ctx"], "features": r_["features"],
                 "realA": r_["realA"], "realB": r_["realB"],
                 "junk_class": junk_cls(r_["pos"], junk) if junk else None}
         v.fail(desc, {"A": r_["srcA"], "B": r_["srcB"], "messageA": r_["msgA"][:300], "messageB": r_["msgB"][:300]})
